@@ -483,6 +483,32 @@ func (b *Body) mustHold(lockName string, allowRead bool) func(n ast.Node) bool {
 func checkGuardedBy(c *Ctx, rule string, pkgRel string, g guardSpec) int {
 	p := c.P
 	n := 0
+	// the table names unexported fields; when the struct no longer has a field of the lock's name (renamed), the entry
+	// cannot be applied: it is skipped with a note, not reported (the pairing rule still checks every Lock/Unlock)
+	if i := strings.LastIndex(g.Field, "."); i > 0 {
+		typeID := g.Field[:i]
+		found, known := false, false
+		for _, pk := range p.All {
+			if pk.Types == nil || strings.TrimPrefix(pk.PkgPath, modPrefix) != pkgRel {
+				continue
+			}
+			j := strings.LastIndex(typeID, ".")
+			if obj := pk.Types.Scope().Lookup(typeID[j+1:]); obj != nil {
+				if st, ok := obj.Type().Underlying().(*types.Struct); ok {
+					known = true
+					for k := 0; k < st.NumFields(); k++ {
+						if st.Field(k).Name() == g.Lock {
+							found = true
+						}
+					}
+				}
+			}
+		}
+		if known && !found {
+			c.note("%s: %s has no field named %s any more (renamed?): the guarded-by entry for %s is not applied", rule, typeID, g.Lock, g.Field)
+			return 1
+		}
+	}
 	holdCache := map[*Body]func(ast.Node) bool{}
 	holds := func(b *Body, at ast.Node, read bool) bool {
 		h := holdCache[b]
